@@ -12,7 +12,10 @@ package main
 //              op = s.<at ms>.<key>.<rcode>.<tc>.<ttl_ttl|x>   Store of a response with these A-record TTLs
 //                   n.<at ms>.<key>                            Store(nil)
 //                   g.<at ms>.<key>                            Get
-//              -> one token per op: s | n | M | H<store op index>:<ttl_ttl...>
+//                   a.<at ms>.<key>.<age ms>.<remain ms>.<nx>.<ttl_ttl|x>   (round 2, kind storeat) MemoryCache.Store called
+//                        directly with storedTime = now - age, expireTime = now + remain: what cacheCtl.Get does when it
+//                        promotes a redis hit into the memory cache (there with setNX = true)
+//              -> one token per op: s | n | a | M | H<store op index>:<ttl_ttl...>
 
 import (
 	"encoding/binary"
@@ -36,6 +39,7 @@ func init() {
 	register("policy", 8, runPolicy)
 	register("ttl", 8, runTTL)
 	register("cachehist", 64, runCacheHist)
+	register("storeat", 64, runCacheHist) // same driver; histories with direct MemoryCache.Store calls (op a)
 	register("routerhist", 64, runRouterHist)
 }
 
@@ -280,12 +284,15 @@ func runTTL(id string, parts []string) string {
 
 // ---------------------------------------------------------------- cachehist
 type c08Op struct {
-	kind  byte
-	at    time.Duration
-	key   int
-	rcode int
-	tc    bool
-	ttls  []uint32
+	kind   byte
+	at     time.Duration
+	key    int
+	rcode  int
+	tc     bool
+	ttls   []uint32
+	age    time.Duration // op a: storedTime = now - age
+	remain time.Duration // op a: expireTime = now + remain
+	nx     bool          // op a: setNX
 }
 
 func c08ParseOps(s string) ([]c08Op, error) {
@@ -301,6 +308,26 @@ func c08ParseOps(s string) ([]c08Op, error) {
 			return nil, fmt.Errorf("bad op %q", tok)
 		}
 		op := c08Op{kind: p[0][0], at: time.Duration(at) * time.Millisecond, key: key}
+		if op.kind == 'a' {
+			if len(p) != 7 {
+				return nil, fmt.Errorf("bad op %q", tok)
+			}
+			age, err1 := strconv.ParseInt(p[3], 10, 64)
+			remain, err2 := strconv.ParseInt(p[4], 10, 64)
+			if err1 != nil || err2 != nil {
+				return nil, fmt.Errorf("bad op %q", tok)
+			}
+			op.age, op.remain, op.nx = time.Duration(age)*time.Millisecond, time.Duration(remain)*time.Millisecond, p[5] == "1"
+			if p[6] != "x" {
+				for _, t := range strings.Split(p[6], "_") {
+					v, err := strconv.ParseUint(t, 10, 32)
+					if err != nil {
+						return nil, fmt.Errorf("bad ttl %q", tok)
+					}
+					op.ttls = append(op.ttls, uint32(v))
+				}
+			}
+		}
 		if op.kind == 's' {
 			if len(p) != 6 {
 				return nil, fmt.Errorf("bad op %q", tok)
@@ -372,6 +399,18 @@ func runCacheHist(id string, parts []string) string {
 					c.Store(q, netip.Addr{}, m)
 					dnsmsg.ReleaseMsg(m)
 					out = append(out, "s")
+				case 'a':
+					m, err := dnsmsg.UnpackMsg(c08Wire(uint16(i+1), name, 0, false, op.ttls))
+					if err != nil {
+						return "HARNESS-ERROR wire"
+					}
+					now := time.Now()
+					err = c.StoreAt(q, now.Add(-op.age), now.Add(op.remain), m, op.nx)
+					dnsmsg.ReleaseMsg(m)
+					if err != nil {
+						return "HARNESS-ERROR pack"
+					}
+					out = append(out, "a")
 				case 'n':
 					c.Store(q, netip.Addr{}, nil)
 					out = append(out, "n")
